@@ -3,6 +3,7 @@
 package inmem_test
 
 import (
+	"context"
 	"testing"
 
 	log "github.com/hashicorp/go-hclog"
@@ -19,6 +20,7 @@ func c08InmemStack(cache bool) *c08Stack {
 	st := &c08Stack{Name: "inmem", MaxPlain: 2, HasCache: cache}
 	if cache {
 		st.Name = "cache-inmem"
+		st.Hooks = &c08Hooks{}
 	}
 	st.Open = func(t testing.TB) (c08Backend, func()) {
 		logger := log.NewNullLogger()
@@ -26,14 +28,22 @@ func c08InmemStack(cache bool) *c08Stack {
 		if err != nil {
 			t.Fatal(err)
 		}
+		st.Ground = nil
+		var c physical.Cache
 		if cache {
-			c := physical.NewCache(b, 0, logger, &metrics.BlackholeSink{})
+			c = physical.NewCache(c08UnderCache(b, st.Hooks), 0, logger, &metrics.BlackholeSink{})
 			c.SetEnabled(true)
 			b = c
 		}
 		be, err := c08NewPhysBackend(b)
 		if err != nil {
 			t.Fatal(err)
+		}
+		if cache {
+			st.Ground = func(ctx context.Context) (map[string]string, []string, error) {
+				c.Purge(ctx)
+				return c08ScanStore(ctx, be)
+			}
 		}
 		return be, func() {}
 	}
